@@ -62,6 +62,7 @@ var (
 	Prop     = flag.String("prop", "", "property id")
 	Budget   = flag.Duration("budget", 0, "internal deadline (0 = none); hitting it exits 0 with exhaustive=false")
 	MaxViol  = flag.Int("maxviol", 40, "stop after this many distinct violation keys")
+	SubShard = flag.Bool("subshard", false, "shard the exploration subtrees of every configuration instead of the configurations")
 	Seed     = flag.Int64("seed", 0, "rotates the order in which configurations are processed (results do not depend on it)")
 	start    = time.Now()
 	shardI   = 0
@@ -82,7 +83,15 @@ func Init() {
 }
 
 // Mine reports whether configuration idx belongs to this shard.
-func Mine(idx int64) bool { return int(idx%int64(shardN)) == shardI }
+func Mine(idx int64) bool { return *SubShard || int(idx%int64(shardN)) == shardI }
+
+// SubShardOf returns the exploration-subtree shard (0,0 when configurations are sharded).
+func SubShardOf() (int, int) {
+	if *SubShard {
+		return shardI, shardN
+	}
+	return 0, 0
+}
 
 // ShardN returns the number of shards.
 func ShardN() int { return shardN }
